@@ -46,7 +46,7 @@ def _format_of_writer(f: FuncInfo) -> tuple[str | None, ast.AST | None]:
     return None, None
 
 
-def _dispatch(f: FuncInfo, literals: list[str] | None = None) -> dict[str, str]:
+def _dispatch(f: FuncInfo, literals: list[str] | None = None, switch: bool = False) -> dict[str, str]:
     """literal -> loader method name `load` ends in for that literal (under the default threshold, i.e. not the profiling switch):
     a decision table over `data['__format__'] == <literal>` for every literal compared anywhere in the function"""
     from sa import dtable as DT
@@ -68,7 +68,7 @@ def _dispatch(f: FuncInfo, literals: list[str] | None = None) -> dict[str, str]:
     for row in DT.table(f.node, atoms):
         a = row["assignment"]
         on = [l for l in lits if a[f"fmt={l}"]]
-        if len(on) != 1 or a["profiling_switch"] or any(v for k, v in a.items() if k.startswith("?")):
+        if len(on) != 1 or a["profiling_switch"] != switch or any(v for k, v in a.items() if k.startswith("?")):
             continue  # exactly one literal matches at a time; the profiling switch is off by default
         o = row["outcome"]
         if o[0] == "return" and isinstance(o[1], ast.Call):
@@ -157,6 +157,14 @@ def rule_F1(ctx: Ctx) -> None:
         ok = loader is not None and (a == lit)
         ctx.judge(f, ok, {"writes": lit, "dispatch_branch": loader, "loader_asserts": a}, exp,
                   "a dataset written in this format cannot be loaded back (KeyError / AssertionError in load)")
+        # under the profiling setting of the threshold (-1) serialize() always writes the compact format: its loaders must stay reachable
+        loader_sw = _dispatch(load, switch=True).get(lit)
+        a_sw = None
+        if loader_sw and ctx.index.has_func(f"{MD}.MazeDataset.{loader_sw}"):
+            a_sw = _assert_literal(ctx.index.func(f"{MD}.MazeDataset.{loader_sw}"))
+        ctx.judge(f, loader_sw is not None and a_sw == lit, {"writes": lit, "dispatch_branch_with_threshold_minus_one": loader_sw, "loader_asserts": a_sw},
+                  "with SERIALIZE_MINIMAL_THRESHOLD == -1 too, the format's branch in MazeDataset.load ends in a loader that asserts the same literal",
+                  "under the profiling threshold every dataset is written in the compact format and then handed to a loader of another format: nothing serialize() writes loads back")
         # routing
         h = _route(handlers, lit)
         okr = h is not None and h["loads"] == f"{MD}.MazeDataset"
@@ -927,12 +935,14 @@ def rule_F8(ctx: Ctx) -> None:
 
 RULES = [
     Rule("C05.F10", rule_F10, floor=4, doc="abstract round trip of every storage format (writer then reader over symbolic mazes)"),
-    Rule("C05.F1", rule_F1, floor=9, doc="format closure and zanj routing"),
+    Rule("C05.F1", rule_F1, floor=12, doc="format closure and zanj routing"),
     Rule("C05.F2", rule_F2, floor=8, doc="writer/reader key agreement, nothing stored is dropped"),
     Rule("C05.F5", rule_F5, floor=4, doc="storage capacity"),
     Rule("C05.F6", rule_F6, floor=1, doc="serializer totality over metadata states"),
     Rule("C05.F7", rule_F7, floor=1, doc="threshold selection"),
     Rule("C05.F8", rule_F8, floor=3, doc="serialisation does not drift the configuration's identity"),
+    Rule("C05.F12", lambda ctx: (__import__("sa.rules.c08", fromlist=["x"]).rule_G3(ctx), __import__("sa.rules.c08", fromlist=["x"]).rule_G4(ctx)), floor=6,
+         doc="'an equal configuration' after a round trip rests on how filters record themselves (tuple args, dict kwargs, the keys the loader reads): C08.G3 / G4 re-judged"),
     Rule("C05.F11", lambda ctx: __import__("sa.rules.c18", fromlist=["x"]).rule_H2(ctx), floor=5,
          doc="'an equal configuration' rests on the configuration's field loaders: C18.H2 re-judged (generator, option dicts, recorded filters come back as they were stored)"),
     Rule("C05.E12", lambda ctx: __import__("sa.mypyx", fromlist=["x"]).cross_check(ctx, [f"{MD}.MazeDataset.serialize", f"{CD}.MazeDatasetCollection.serialize", f"{DS}.GPTDataset.save"], "C05.E12"), floor=1,
